@@ -9,7 +9,7 @@ STR_CONS = [{"min_len": 1}, {"max_len": 3}, {"pattern": "^a"}, {"pattern": "^[a-
 ARR_CONS = [{"min_items": 1}, {"max_items": 2}, {"unique": True}, {"min_items": 1, "max_items": 3}, {"min_items": 2, "unique": True}]
 OBJ_CONS = [{"min_props": 1}, {"max_props": 2}, {"min_props": 1, "max_props": 3}]
 # second-level constraints (no pattern: two patterns cannot be merged)
-NUM_CONS2 = [{"min": 2}, {"max": 4}, {"max": 20}, {"min": -5}, {"exc_min": 1}, {"exc_max": 3}, {"mult_of": 2}, {"min": 0, "max": 3}]
+NUM_CONS2 = [{"exc_min": 0}, {"exc_max": 10}, {"min": 0}, {"max": 10}, {"min": 2}, {"max": 4}, {"max": 20}, {"min": -5}, {"exc_min": 1}, {"exc_max": 3}, {"mult_of": 2}, {"min": 0, "max": 3}]
 STR_CONS2 = [{"min_len": 2}, {"max_len": 10}, {"max_len": 2}, {"min_len": 0}, {"min_len": 1, "max_len": 3}]
 ARR_CONS2 = [{"min_items": 2}, {"max_items": 1}, {"max_items": 5}, {"unique": True}, {"min_items": 0}]
 OBJ_CONS2 = [{"min_props": 2}, {"max_props": 1}, {"max_props": 5}]
